@@ -128,13 +128,14 @@ type c03Case struct {
 	Defaults int         `json:"defaults"` // 0 absent, 1 present, 2 registered twice
 	Reqs     []RouteReq  `json:"reqs"`
 	GoLDAP   bool        `json:"goldap"` // also drive the refusal case with the go-ldap client
+	// Late: the last Late routes are registered on the live mux only after the requests have been served once
+	// (judged against the table as it was then); the requests are then sent again on a second connection and
+	// judged against the complete table - "registration order" has no deadline
+	Late int `json:"late,omitempty"`
 }
 
 func c03Exec(c c03Case, st *lab.Stats) *lab.Fail {
-	type ev struct {
-		label string
-		msgID int64
-	}
+	type ev = c03Ev
 	var mu sync.Mutex
 	var events []ev
 	mk := func(label string) gldap.HandlerFunc {
@@ -147,7 +148,10 @@ func c03Exec(c c03Case, st *lab.Stats) *lab.Fail {
 		}
 	}
 	mux, _ := gldap.NewMux()
-	for i, r := range c.Routes {
+	if c.Late < 0 || c.Late > len(c.Routes) {
+		c.Late = 0
+	}
+	register := func(i int, r RouteSpec) *lab.Fail {
 		label := fmt.Sprintf("r%d", i)
 		var err error
 		switch r.Op {
@@ -177,6 +181,12 @@ func c03Exec(c c03Case, st *lab.Stats) *lab.Fail {
 		if err != nil {
 			return lab.Failf("registration-error", "registering route %d (%+v): %v", i, r, err)
 		}
+		return nil
+	}
+	for i, r := range c.Routes[:len(c.Routes)-c.Late] {
+		if f := register(i, r); f != nil {
+			return f
+		}
 	}
 	for d := 1; d <= c.Defaults; d++ {
 		if err := mux.DefaultRoute(mk(fmt.Sprintf("d%d", d))); err != nil {
@@ -190,6 +200,28 @@ func c03Exec(c c03Case, st *lab.Stats) *lab.Fail {
 		return nil
 	}
 	defer func() { _ = srv.Stop(10 * time.Second) }()
+	if c.Late > 0 {
+		st.Class("late-registration")
+		if f := c03Batch(c, c.Routes[:len(c.Routes)-c.Late], 1000, srv, closed, &mu, func() []c03Ev { return events }, st, true); f != nil {
+			return f
+		}
+		for i := len(c.Routes) - c.Late; i < len(c.Routes); i++ {
+			if f := register(i, c.Routes[i]); f != nil {
+				return f
+			}
+		}
+		return c03Batch(c, c.Routes, 2000, srv, closed, &mu, func() []c03Ev { return events }, st, false)
+	}
+	return c03Batch(c, c.Routes, 1000, srv, closed, &mu, func() []c03Ev { return events }, st, false)
+}
+
+type c03Ev struct {
+	label string
+	msgID int64
+}
+
+// c03Batch sends the case's requests on a fresh connection and judges them against the given route table.
+func c03Batch(c c03Case, routes []RouteSpec, idBase int64, srv *lab.Server, closed chan int, mu *sync.Mutex, getEvents func() []c03Ev, st *lab.Stats, early bool) *lab.Fail {
 	cl, err := lab.Dial(srv.Addr)
 	if err != nil {
 		st.Inconclusive(err.Error())
@@ -202,7 +234,7 @@ func c03Exec(c c03Case, st *lab.Stats) *lab.Fail {
 	for i, q := range c.Reqs {
 		matches := 0
 		want[i] = ""
-		for j, r := range c.Routes {
+		for j, r := range routes {
 			if modelMatch(r, q) {
 				if matches == 0 {
 					want[i] = fmt.Sprintf("r%d", j)
@@ -217,9 +249,9 @@ func c03Exec(c c03Case, st *lab.Stats) *lab.Fail {
 				want[i] = "refuse"
 			}
 		}
-		st.Case(matches >= 2 || matches == 0, lab.JSONKey([]interface{}{c.Routes, c.Defaults, q}),
-			"op="+q.Op, fmt.Sprintf("matching=%d", min3(matches)), "outcome="+classOfWant(want[i]), fmt.Sprintf("nroutes=%s", routesBucket(len(c.Routes))))
-		buf = append(buf, q.spec(int64(1000+i)).Bytes()...)
+		st.Case(matches >= 2 || matches == 0, lab.JSONKey([]interface{}{routes, c.Defaults, q, early}),
+			"op="+q.Op, fmt.Sprintf("matching=%d", min3(matches)), "outcome="+classOfWant(want[i]), fmt.Sprintf("nroutes=%s", routesBucket(len(routes))))
+		buf = append(buf, q.spec(idBase+int64(i)).Bytes()...)
 	}
 	if st.WantSample() {
 		st.Sample(c)
@@ -252,17 +284,27 @@ func c03Exec(c c03Case, st *lab.Stats) *lab.Fail {
 		return nil
 	}
 	mu.Lock()
-	evs := append([]ev{}, events...)
+	var evs []c03Ev
+	for _, e := range getEvents() {
+		if e.msgID >= idBase && e.msgID < idBase+1000 {
+			evs = append(evs, e)
+		}
+	}
 	mu.Unlock()
 	for i, q := range c.Reqs {
-		id := int64(1000 + i)
+		id := idBase + int64(i)
 		var ran []string
 		for _, e := range evs {
 			if e.msgID == id {
 				ran = append(ran, e.label)
 			}
 		}
-		desc := fmt.Sprintf("request %+v against routes %+v defaults=%d", q, c.Routes, c.Defaults)
+		desc := fmt.Sprintf("request %+v against routes %+v defaults=%d", q, routes, c.Defaults)
+		if c.Late > 0 && early {
+			desc += fmt.Sprintf(" (%d more routes are registered later: %+v)", c.Late, c.Routes[len(routes):])
+		} else if c.Late > 0 {
+			desc += fmt.Sprintf(" (the last %d routes were registered on the live mux after the same requests had been served once)", c.Late)
+		}
 		rs := got[id]
 		switch want[i] {
 		case "refuse":
@@ -380,7 +422,7 @@ func TestC03Random(t *testing.T) {
 	kinds := allRouteKinds()
 	reqs := allRouteReqs()
 	lab.Prop[c03Case]{
-		ID: "C03", Part: "random", Rule: "rapid: tables of 0..8 routes, one in five of up to 40 routes; " + c03Rule,
+		ID: "C03", Part: "random", Rule: "rapid: tables of 0..8 routes, one in five of up to 40 routes; one table in three has its last 1..n routes registered on the live mux after all requests were served once (judged against the shorter table), and the requests are then served again on a second connection and judged against the complete table; " + c03Rule,
 		Gen: func(t *rapid.T) c03Case {
 			// the order in which the requests hit the mux is generated too: routing must not depend on history
 			c := c03Case{Defaults: rapid.IntRange(0, 2).Draw(t, "defaults"), Reqs: rapid.Permutation(reqs).Draw(t, "reqorder")}
@@ -392,6 +434,11 @@ func TestC03Random(t *testing.T) {
 			}
 			c.Routes = rapid.SliceOfN(rapid.SampledFrom(kinds), 0, maxRoutes).Draw(t, "routes")
 			c.GoLDAP = rapid.IntRange(0, 3).Draw(t, "goldap") == 0
+			// one table in three is completed on the live mux: its last 1..n routes are registered after the
+			// requests have been served once against the shorter table
+			if len(c.Routes) > 0 && rapid.IntRange(0, 2).Draw(t, "late") == 0 {
+				c.Late = rapid.IntRange(1, len(c.Routes)).Draw(t, "nlate")
+			}
 			return c
 		},
 		Exec: c03Exec,
